@@ -1393,4 +1393,28 @@ theorem updateStatus_returns (parts : Nat) (answers : List PatchAnswer) :
       · exact ih
       · rfl
 
+/-! ## the copy of the mechanism configs of a RuleSet resource -/
+
+mutual
+  theorem copyVal_id : ∀ v : Val, copyVal true v = .ok v
+    | .null => by simp [copyVal]
+    | .bool _ => by simp [copyVal]
+    | .num _ => by simp [copyVal]
+    | .str _ => by simp [copyVal]
+    | .other => by simp [copyVal]
+    | .list l => by simp [copyVal, copyList_id l, Out.bind]
+    | .map m => by simp [copyVal, copyFields_id m, Out.bind]
+  theorem copyList_id : ∀ l : List Val, copyList true l = .ok l
+    | [] => by simp [copyList]
+    | v :: vs => by simp [copyList, copyVal_id v, copyList_id vs, Out.bind]
+  theorem copyFields_id : ∀ m : List (String × Val), copyFields true m = .ok m
+    | [] => by simp [copyFields]
+    | (k, v) :: rest => by simp [copyFields, copyVal_id v, copyFields_id rest, Out.bind]
+end
+
+theorem copyConfigs_ok (cs : List Val) : copyConfigs true cs = .ok () := by
+  induction cs with
+  | nil => simp [copyConfigs]
+  | cons c cs ih => simp [copyConfigs, copyVal_id, Out.bind, ih]
+
 end Heimdall.Loaders
